@@ -465,7 +465,11 @@ func r7Statuses(c *ctx) {
 
 // r7-C11: many header lines on either side (a peer that counts lines must count the other's too)
 func r7ManyHeaders(c *ctx) {
-	for _, n := range []int{28, 31, 32, 33, 40, 100, 300} {
+	counts := []int{28, 31, 32, 33, 40, 100, 300}
+	if !c.thor {
+		counts = []int{31, 32, 33, 40}
+	}
+	for _, n := range counts {
 		var b strings.Builder
 		for i := 0; i < n; i++ {
 			b.WriteString("X-H" + strconv.Itoa(i) + ": v" + strconv.Itoa(i) + "\r\n")
